@@ -47,7 +47,17 @@ pub fn scale_cases(ctx: &Ctx, quick: u64, thorough_factor: u64) -> u64 {
         .and_then(|x| x.parse::<f64>().ok())
         .unwrap_or(1.0);
     let n = if ctx.tier == "thorough" {
-        quick * thorough_factor
+        // per-property share of the thorough factor, set from measured run times so that every thorough tier
+        // stays in the order of a quarter of an hour on 16 cores (the heavy ones have long histories: up to 200
+        // pulls after the end, the linearizability search, three preemptions)
+        let (num, den) = match ctx.prop.as_str() {
+            "C04" => (1, 6),
+            "C05" | "C06" => (1, 4),
+            "C11" => (2, 5),
+            "C03" | "C07" | "C12" | "C18" => (1, 2),
+            _ => (1, 1),
+        };
+        (quick * thorough_factor * num / den).max(quick)
     } else {
         quick
     };
